@@ -227,6 +227,14 @@ def param_probes():
     for pos, arr in (('too_few', sig), ('ok', np.array([sig, sig[::-1]])), ('too_many', np.array([[[sig, sig]]]))):
         add('ndim', 'sigs', 'BycycleGroup.fit', pos, lambda arr=arr: BycycleGroup(thresholds=dict(thr)).fit(arr, fs, fr, n_jobs=1))
 
+    from bycycle.group import compute_features_3d
+    sigs3 = np.array([[sig, sig[::-1]], [sig * 0.5, sig[::-1] * 2]])
+    for pos, v in (('zero', np.int64(0)), ('one', np.int64(1)), ('two', np.int64(2))):
+        add('axis_as_numpy_integer', 'axis', 'compute_features_3d', pos, lambda v=v: compute_features_3d(sigs3, fs, fr, {'threshold_kwargs': dict(thr)}, axis=v, n_jobs=1))
+        add('axis_as_numpy_integer', 'axis', 'compute_features_3d(per-slice list)', pos,
+            lambda v=v: compute_features_3d(sigs3, fs, fr, [{'threshold_kwargs': dict(thr)}, {'threshold_kwargs': dict(thr, min_n_cycles=3)}], axis=v, n_jobs=1))
+        add('axis_as_numpy_integer', 'axis', 'BycycleGroup.fit', pos, lambda v=v: BycycleGroup(thresholds=dict(thr)).fit(sigs3, fs, fr, axis=v, n_jobs=1))
+
     def plot_case(fit):
         import matplotlib
         matplotlib.use('Agg')
